@@ -54,6 +54,29 @@ def _sort_key(rec):
     return (len(json.dumps(rec["case"], default=repr)), json.dumps(rec["case"], default=repr))
 
 
+def _replay_in_fresh_processes(pid, rec):
+    """Run `./run <pid> --replay f --repeat 3` twice; return the sequence if both runs agree and contain a failure."""
+    import tempfile
+    fd, path = tempfile.mkstemp(suffix=".json", dir="/dev/shm")
+    try:
+        with os.fdopen(fd, "w") as f:
+            json.dump(dict(failure=rec), f, default=repr)
+        outs = []
+        for _ in range(2):
+            r = subprocess.run([os.path.join(VERIF, "run"), pid, "--replay", path, "--repeat", "3"],
+                               capture_output=True, text=True, timeout=600)
+            lines = [l for l in r.stdout.splitlines() if l.startswith("REPLAY-SEQUENCE ")]
+            if not lines:
+                return None
+            outs.append(lines[0])
+        if outs[0] != outs[1]:
+            return None
+        seq = json.loads(outs[0][len("REPLAY-SEQUENCE "):])
+        return seq if any(x is not None for x in seq) else None
+    finally:
+        os.unlink(path)
+
+
 def write_evidence(pid, ev):
     path = os.path.join(os.environ.get("VERIF_EVIDENCE_DIR", os.path.join(VERIF, "evidence")), pid + ".json")
     os.makedirs(os.path.dirname(path), exist_ok=True)
@@ -82,6 +105,7 @@ def main(argv=None):
     ap.add_argument("property")
     ap.add_argument("--tier", default=os.environ.get("VERIF_TIER", "quick"), choices=["quick", "thorough"])
     ap.add_argument("--replay")
+    ap.add_argument("--repeat", type=int, default=1, help="with --replay: execute the case N times in one process")
     ap.add_argument("--workers", type=int, default=int(os.environ.get("VERIF_WORKERS", "16")))
     args = ap.parse_args(argv)
     pid = args.property.upper()
@@ -110,7 +134,14 @@ def _main(pid, args, seed):
     if args.replay:
         rec = json.load(open(args.replay))
         rec = rec.get("failure", rec)
-        got = check.replay(rec)
+        got = None
+        seq = []
+        for _ in range(max(1, args.repeat)):
+            g = check.replay(rec)
+            seq.append(None if g is None else g["behaviour"])
+            got = got or g
+        if args.repeat > 1:
+            print("REPLAY-SEQUENCE " + json.dumps(seq))
         if got is None:
             print(f"replay: property {pid} holds on this case")
             return 0
@@ -146,9 +177,19 @@ def _main(pid, args, seed):
         a = check.replay(rec)
         b = check.replay(rec)
         if a is None or b is None or a["observed"] != b["observed"]:
-            raise HarnessError("failure does not reproduce deterministically in isolation "
-                               "(state leaked between cases, or nondeterminism): "
-                               + json.dumps(rec, default=repr)[:1500])
+            # Not reproducible as a single isolated execution.  Either the harness is nondeterministic (broken check)
+            # or the LIBRARY's answer depends on what it was asked before in the same process (a cache, leaked state).
+            # Decide by replaying the case several times in each of two fresh processes: identical sequences that
+            # contain a failure are a deterministic, history-dependent violation.
+            seqs = _replay_in_fresh_processes(pid, rec)
+            if seqs is None:
+                raise HarnessError("failure does not reproduce deterministically in isolation "
+                                   "(state leaked between cases, or nondeterminism): "
+                                   + json.dumps(rec, default=repr)[:1500])
+            rec = dict(rec)
+            rec["note"] = (rec.get("note", "") + " history-dependent: outcome of repeated execution in one fresh "
+                           "process = %s" % json.dumps(seqs)).strip()
+            rec["replay_repeat"] = 3
         reported.append(rec)
 
     cov = dict(evaluations=total.evaluations, distinct_nontrivial=total.nontrivial,
@@ -192,7 +233,9 @@ def _main(pid, args, seed):
         path = os.path.join(rdir, f"{pid}-{i}.json")
         with open(path, "w") as f:
             json.dump(dict(property=pid, failure=rec,
-                           replay_cmd=f"./run {pid} --replay {path}"), f, indent=1, default=repr)
+                           replay_cmd=f"./run {pid} --replay {path}" + (" --repeat %d" % rec["replay_repeat"]
+                                                                       if rec.get("replay_repeat") else "")),
+                      f, indent=1, default=repr)
         print(f"  {rec['sub']}: case={json.dumps(rec['case'], default=repr)[:300]} expected={str(rec['expected'])[:200]} "
               f"observed={str(rec['observed'])[:200]} [{rec['behaviour']}]")
         print(f"VIOLATION property={pid} replay={path}", flush=True)
